@@ -49,6 +49,9 @@ func (p *Prog) noteImports(t *Type, into map[string]bool) {
 	// only syntactically mentioned declarations need an import
 	var mention func(x *Type)
 	mention = func(x *Type) {
+		if x.Alias != "" {
+			return // spelled through an alias of the subject package: nothing of its target is mentioned
+		}
 		switch x.Kind {
 		case Ptr, Slice, Array:
 			mention(x.Elem)
@@ -244,7 +247,18 @@ func (p *Prog) Files() map[string]string {
 				body += userMethods(d)
 			}
 		}
+		for _, a := range p.Env.Aliases {
+			p.noteImports(a.Target, imps)
+			body += fmt.Sprintf("type %s = %s\n\n", a.Name, a.Target.Str(p.Q()))
+		}
+		for _, ud := range p.Env.UserDecls {
+			body += ud + "\n\n"
+		}
 		files["p/types.go"] = gofmt("package p\n\n" + p.importBlock(imps) + body)
+	}
+	if p.Env.XTest {
+		// the external test package of p: no derive calls, lives in p's directory
+		files["p/x_test.go"] = "package p_test\n\nimport \"testing\"\n\nfunc TestX(t *testing.T) {}\n"
 	}
 	files["p/calls.go"] = gofmt("package p\n\n" + p.importBlock(p.callImps) + strings.Join(p.calls, "\n"))
 	if len(p.tests) > 0 {
